@@ -53,6 +53,17 @@ def cases(tier, seed):
                     yield {'k': 't', 'N': N, 'R': R, 'rz': rz, 'op': 'proj'}
                 for f in ('quad', 'lin', 'quart'):
                     yield {'k': 't', 'N': N, 'R': R, 'f': f, 'op': 'grad'}
+    # histories on ONE base-point object: every sequence of up to 3 calls (projection / gradient of three f) must give, at
+    # every step, the same result as on a fresh object (state cached on or leaked into x shows on the second use)
+    steps = ['proj', 'quad', 'lin', 'quart']
+    for N, R in (([3, 4, 2], [1, 2, 2, 1]), ([3, 4], [1, 3, 1]), ([2, 3, 2, 3], [1, 2, 3, 2, 1])):
+        for L in (2, 3):
+            for seq in itertools.product(steps, repeat=L):
+                if tier == 'quick' and L == 3 and len(N) != 3:
+                    continue
+                yield {'k': 't', 'N': N, 'R': R, 'op': 'seq', 'seq': list(seq)}
+    for seq in itertools.product(steps[:3], repeat=2):
+        yield {'k': 'm', 'M': [2, 3], 'N': [3, 2], 'R': [1, 2, 1], 'op': 'seq', 'seq': list(seq)}
     for d in (2, 3):
         M, N = [2, 3, 2][:d], [3, 2, 2][:d]
         for R in space.ranks_alphabet(d, (1, 2, 3)):
@@ -137,6 +148,40 @@ def run_case(c):
     def dense_of(t):
         return _as_tensor(ref.contract(t.cores), c)
 
+    if c['op'] == 'seq':
+        t, ct = mk('t', 2)
+        Td = ref.contract(ct)
+        cten, cc = mk('c', 2)
+        Cd = ref.contract(cc)
+        z, cz = mk('z', 3)
+        Zt = _as_tensor(ref.contract(cz), c)
+        fns = {'quad': (lambda X: 0.5 * (X - t).norm() ** 2, Xd - Td),
+               'lin': ((lambda X: torchtt.dot(X, cten)) if not ttm else (lambda X: (X * cten).sum()), Cd),
+               'quart': (lambda X: (X * X).norm() ** 2, 4 * Xd ** 3)}
+        for i, st_ in enumerate(c['seq']):
+            tag = 'step%d_of_%s' % (i + 1, '-'.join(c['seq'][:i + 1]))
+            if st_ == 'proj':
+                r, e = call(torchtt.manifold.riemannian_projection, x, z)
+                want, sc = P(Zt), float(torch.linalg.norm(Zt))
+            else:
+                r, e = call(torchtt.manifold.riemannian_gradient, x, fns[st_][0])
+                Gt = _as_tensor(fns[st_][1], c)
+                want, sc = P(Gt), float(torch.linalg.norm(Gt))
+            if e is not None:
+                viol.append(V('sequence.%s.raises_%s' % (st_, exc_name(e)), '%s: %r' % (tag, e)))
+                break
+            if not isinstance(r, TT) or list(r.N) != N:
+                viol.append(V('sequence.%s.shape' % st_, tag))
+                break
+            if float(torch.linalg.norm(dense_of(r) - want)) > 1e-8 * (sc + 1e-300):
+                viol.append(V('sequence.%s.differs_on_reused_base_point' % st_ if i > 0 else 'sequence.%s.differs' % st_,
+                              '%s: rel diff %.3e' % (tag, float(torch.linalg.norm(dense_of(r) - want)) / (sc + 1e-300))))
+                break
+            dmsg = snapshot_diff(x, snap)
+            if dmsg:
+                viol.append(V('sequence.%s.base_point_changed' % st_, '%s: %s' % (tag, dmsg)))
+                break
+        return Outcome(key, nt, 'seq%d' % len(c['seq']), transitions=len(c['seq']), compared=len(c['seq']), violations=viol)
     if c['op'] == 'proj':
         z, cz = mk('z', c['rz'])
         w, cw = mk('w', max(1, c['rz'] - 1))
